@@ -574,10 +574,8 @@ func (te *TemplateEngine) renderLoopsNested(content string, lists map[string][]i
 					}
 				}
 
-				// 如果有嵌套列表，递归处理嵌套循环
-				if len(nestedLists) > 0 {
-					loopContent = te.renderLoopsNested(loopContent, nestedLists, depth+1)
-				}
+				// 递归处理嵌套循环（当前项没有对应列表时，嵌套循环渲染为空）
+				loopContent = te.renderLoopsNested(loopContent, nestedLists, depth+1)
 
 				// 然后替换普通变量
 				for key, value := range itemMap {
